@@ -44,7 +44,8 @@ ASSUMPTIONS = [
     'concurrent requests: the event-loop model (Model.task_step) lets a request yield any number of times before its check and '
     'after its store, never in between; that number is read from the source on every run (Gen/C04Gen.v) and tested by '
     'concurrent steps, it is not proved about CPython',
-    'a port is (re-)added without expression; an expression persisted for it is installed through the same set_attr path',
+    'the persisted store is modelled as id -> expression written by port.save(); other persisted attributes (enabled, ...) and '
+    'the persistence driver itself are not (C06/C07)',
 ]
 
 FUNCS = {'ADD': (2, 4), 'MUL': (2, 3), 'MIN': (2, 4), 'MAX': (2, 3), 'IF': (3, 3), 'NOT': (1, 1), 'ABS': (1, 1),
@@ -932,8 +933,10 @@ def check(ctx, res):
         '(depth 0..3 over ADD MUL MIN MAX IF NOT ABS AND OR SUB, leaves $id / $ / dangling ids / literals), 7% clears, 3% '
         'unparsable texts, 7% removals, <=10% re-additions, 2% value sequences started (long delays), 6% concurrent steps: 2-3 '
         'requests through asyncio.gather (half of them expressions that close a cycle only together, a fifth with a concurrent '
-        'port removal), on ports with a running sequence (all / some / none); every step through the real '
-        'set_attr/remove/load_one/set_sequence. '
+        'port removal), on ports with a running sequence (all / some / none); the load path: port.save(), removal keeping the '
+        'persisted data, re-creation + load(), restart (all ports removed with data kept, core_ports.load of all), probes, and '
+        'scenario blocks (hot-unplug with the graph changed meanwhile; crash between an unsaved clear and a saved assignment); '
+        'every step through the real set_attr/remove/load_one/load/save/set_sequence. '
         'distinct = distinct histories; non-trivial = contains a circular-dependency rejection and an accepted assignment of a '
         'function call reading another port')
     I = impl()
@@ -1012,7 +1015,9 @@ LEVEL_TEXT = (
     'included) is never rejected. Concurrent requests: an event-loop model in which a request may be suspended any number '
     'of times before its check and after its store but not in between (the number of suspension points in between is '
     'regenerated from the source on every run and proved to be 0) -- every schedule is a serialization, so no interleaving '
-    'creates a cycle. The model is compared step by step with the real set_attr("expression") path on generated '
+    'creates a cycle. Persisted data and the load path (save, removal keeping the data, re-creation + load, restart) are '
+    'sequences of checked base operations on the registry, so the invariant covers them; that the check_loops call is under no '
+    'condition is regenerated from the source and proved on every run. The model is compared step by step with the real set_attr("expression") path on generated '
     'histories, and the real outcomes are compared with the Coq specification oracle (proved equivalent to the declarative '
     'definitions) and with a brute-force reachability test over the implementation\'s own get_deps().'
 )
